@@ -69,3 +69,30 @@ SPECS['C10'] = dict(
     assumptions=STREAM_ASSUME,
     level_text='Exploration: exhaustive for 8/16-bit domains, constants and all half patterns; boundary + seeded elsewhere.',
     level_note='cbor_encode_half is judged only on NaN and half-representable floats (its documented domain for exactness; totality on other floats is C15).')
+
+def tree_jobs(tier, seed):
+    return [Job('drv_tree', 'asan', [], shards=NCPU, timeout=5400)]
+
+TREE_ASSUME = [COMMON_ASSUME[0], 'the reference encoder (src/ref/refcbor.hpp encode, written from RFC 8949 and the rules stated in C03) is correct', COMMON_ASSUME[2],
+               'UBSan nonnull-attribute is disabled in this flavour: memcpy(dst, NULL, 0) on handle-less definite strings is outside every listed property']
+
+SPECS['C03'] = dict(
+    jobs=tree_jobs, level='exploration', technique='round-trip + differential against a reference encoder over decoder-made and API-constructed trees (enumerated and seeded construction programs)',
+    rule='Trees: DEC = cbor_load of every E2 (<=2 nodes quick / <=3 thorough) and E2p encoding; PROG = byte-coded construction programs through every cbor_new_*/cbor_build_* (all 1- and 2-byte programs exhaustively, seeded programs of 2..49 bytes); DEEP = API-built nests up to the decoder limit. Oracle: the tree observed through getters equals what the construction calls are documented to build; cbor_serialize_alloc bytes == reference RFC 8949 encoding of the observed tree (stored widths, shortest heads, break-terminated indefinites, canonical NaN); cbor_load of those bytes consumes all of them and gives an equal tree (NaN==NaN); serializing that tree gives the identical bytes; nothing left allocated. Non-trivial = >=3 nodes, or an indefinite item / NaN / width-boundary value / shared node; distinct by construction program or input bytes.',
+    assumptions=TREE_ASSUME,
+    level_text='Exploration: exhaustive over the enumerated encodings and all 1- and 2-byte construction programs; seeded sample of longer programs.',
+    level_note='Trusts the reference encoder; API-built trees are limited to what treeprog.hpp can express (no cycles, no unset ints/floats, simple values 20..23 only — the preconditions stated in the property).')
+
+SPECS['C07'] = dict(
+    jobs=tree_jobs, level='exploration', technique='exhaustive buffer-size sweep (n = 0..size+2, exact heap blocks with sentinel fill under ASan) over generated trees; encoder x value x n sweep',
+    rule='For every tree of the C03 campaigns: every n in 0..size+2 with an exactly n-byte heap block filled with 0xC5: cbor_serialize returns cbor_serialized_size iff n >= size else 0, bytes [size,n) stay 0xC5, ASan guards everything past n; cbor_serialize_alloc returns size, sets *buffer_size = size (or accepts NULL), the block it obtained is exactly size bytes and holds the same bytes. ENCN: every cbor_encode_* x boundary/seeded values x n in 0..10: returns 0 with the buffer untouched, or the head length with only those bytes written and equal to the reference head. Cases are trees (each sweeps all n; counters.tree_n_pairs is the number of (tree,n) pairs) and (encoder,value) pairs. Non-trivial = tree with >=2 nodes, an indefinite item or size >= 3.',
+    assumptions=TREE_ASSUME,
+    level_text='Exploration: for each generated tree the buffer-size dimension is exhaustive; trees and encoder values are enumerated/sampled as in C03.',
+    level_note='Writes outside the first n bytes are detected by ASan red zones of the exactly-sized block.')
+
+SPECS['C11'] = dict(
+    jobs=tree_jobs, level='exploration', technique='metamorphic/invariant checks on cbor_copy over generated trees: byte-image snapshot of the source, address-set disjointness, mutate/release one side and re-check the other under ASan',
+    rule='Trees of the C03 campaigns (incl. shared sub-items, empty containers, zero-chunk indefinite strings, 64-bit values, partially filled definite containers), each in two variants (mutate-then-release the copy / the source). Oracle: copy serializes to the same bytes and has the same observed shape; every copy node has refcount 1 and appears once; node and buffer address ranges of copy and source are disjoint; the byte image of every source block is unchanged by cbor_copy; after mutating every int/string byte/float and pushing to every indefinite array of one tree the other still serializes identically; after releasing one tree the other is intact (ASan) and nothing is left allocated at the end. Non-trivial = tree with a container and a string or a shared node.',
+    assumptions=TREE_ASSUME,
+    level_text='Exploration over enumerated and seeded trees; independence is checked by actual mutation and release, not only by address comparison.',
+    level_note='Source integrity is judged on the byte image of allocator blocks, i.e. without knowledge of the struct layout.')
